@@ -101,3 +101,12 @@ U("c11_has_metadata_resets", ["C11"], "h_hasmeta", ["C11/hasmeta.c"], ["mmd.c", 
            "mmd_engine_create/mmd_engine_free": "contract (fresh engine with its stacks)", "meta_free": "counting stub", "scan_meta_line": "stub: any value", "stack_pop/token_tree_free": "body"},
   min_obligations=30, timeout=900, cost=90, nobody_ok=[], tier="thorough",
   assumptions=["the tokenizer + lemon parser append exactly the leading block's records to e->metadata_stack (assumed contract)", NOFAIL])
+
+# ---- a blank line ends metadata recognition (mmd_assign_line_type with the scanners havocked)
+U("c11_blank_line_ends_meta", ["C11", "C20"], "h_linetype", ["C11/linetype.c"], ["mmd.c", "char.c"], plain=True, lib=(), kind="bounded",
+  pre_instrument=["--remove-function-body-regex", "^(?!mmd_assign_line_type$|line_is_empty$|char_is_.*$|h_linetype$|mk$|verif_.*$|__CPROVER.*$).*",
+                  "--generate-function-body", "^(?!__CPROVER_|malloc$|free$|verif_).*$", "--generate-function-body-options", "nondet-return"],
+  cbmc_flags=["--unwind", "12", "--unwinding-assertions", "--object-bits", "12"], checks=["--no-standard-checks"],
+  bounds={"tokens on the line": "1..3", "first token": "INDENT_TAB / INDENT_SPACE / TEXT_NL / TEXT_LINEBREAK (the kinds that can start a blank line)", "following tokens": "any types"},
+  functions=["mmd_assign_line_type", "line_is_empty"], callees={"scan_* (re2c)": "body removed, nondet return value", "char_is_*, tokens_prune, token_remove_first_child": "body"},
+  min_obligations=2, timeout=600, cost=30, assumptions=[NOFAIL, "memory safety of the function is not claimed by this unit (standard checks off: callees are havocked)"])
